@@ -11,9 +11,14 @@ def on_line(np, x, P, d):
     return A.cross3(np, np.array(x) - np.array(P), d)
 
 
+def pt(env, name):
+    """a point with coordinates up to 1e3 (the property's domain)"""
+    return env.reals(name, 3, -1e3, 1e3)
+
+
 def two_points(env):
     """P and Q = P + l*u with l in [1e-3, 1e3]: two points at least 1e-3 apart"""
-    P = env.reals('P', 3)
+    P = pt(env, 'P')
     d = axis3(env, 'd', 1e-3, 1e3)
     Q = [P[i] + d[i] for i in range(3)]
     return P, Q, d
@@ -56,7 +61,7 @@ def line_construction_and_incidence(env, cfg, ck):
     ck.true('point-shape', tuple(x.shape) == (3, 1))
     ck.eq('point-on-line', on_line(np, x.flatten(), P, d), np.zeros(3), scale=sc ** 2 * (1 + lam * lam))
     ck.eq('point-parameter', A.normsq(np, x.flatten() - pp), lam * lam, scale=sc)
-    y = env.reals('y', 3)
+    y = pt(env, 'y')
     c = ck.call(L.closest, y)
     ck.eq('closest-on-line', on_line(np, c.p, P, d), np.zeros(3), scale=sc ** 2 * lscale(np, y))
     ck.eq('closest-orthogonal', A.dot(np, np.array(y) - c.p, w), 0, scale=sc ** 2 * lscale(np, y))
@@ -87,13 +92,16 @@ def rigid_transformation_of_a_line(env, cfg, ck):
 def equality_and_parallelism(env, cfg, ck):
     """equality = same oriented line under positive rescaling of the direction; parallel lines are reported parallel"""
     np, sm = env.np, env.sm
-    P, Q, d = two_points(env)
-    k = env.real('k', 1e-2, 1e2, 'logmag')
+    P = pt(env, 'P')
+    du = env.unitvec('du', 3)
+    dl, dk = env.real('dl', 1e-3, 1e3, 'logmag'), env.real('dk', 1e-3, 1e3, 'logmag')   # two direction lengths in the domain
+    d, d2 = [dl * x for x in du], [dk * x for x in du]
+    Q = [P[i] + d[i] for i in range(3)]
     L1 = sm.Plucker.PointDir(P, d)
-    L2 = sm.Plucker.PointDir(Q, [k * x for x in d])                # same line, same orientation, rescaled
-    L3 = sm.Plucker.PointDir(Q, [-k * x for x in d])               # same line, opposite orientation
-    off = env.reals('o', 3)
-    L4 = sm.Plucker.PointDir([P[i] + off[i] for i in range(3)], [k * x for x in d])   # parallel line
+    L2 = sm.Plucker.PointDir(Q, d2)                                # same line, same orientation, rescaled
+    L3 = sm.Plucker.PointDir(Q, [-x for x in d2])                  # same line, opposite orientation
+    off = pt(env, 'o')
+    L4 = sm.Plucker.PointDir([P[i] + off[i] for i in range(3)], d2)   # parallel line
     for L in (L1, L2, L3, L4):
         env.sos(L.v)              # lemma hint: |v|^2 is a sum of squares (computed, not assumed)
     ck.true('equal-rescaled', ck.call(lambda: L1 == L2))
@@ -110,19 +118,19 @@ def skew_pair(env):
     np = env.np
     u1, u2 = env.unitvec('e', 3), env.unitvec('f', 3)
     env.assume(A.normsq(np, A.cross3(np, u1, u2)) >= 1e-4)
-    P1, P2 = env.reals('A', 3), env.reals('B', 3)
+    P1, P2 = pt(env, 'A'), pt(env, 'B')
     return P1, u1, P2, u2
 
 
 @contract('C19', targets=[G + 'Plucker.__mul__', G + 'Plucker.distance', G + 'Plucker.commonperp', G + 'Plucker.__xor__', G + 'Plucker.intersects'],
-          configs=product(case=['skew', 'intersecting', 'parallel']))
+          configs=product(case=['skew', 'intersecting'], dirs=['unit', 'scaled']) + [{'case': 'parallel'}])
 def line_pairs(env, cfg, ck):
     """distance, common perpendicular (orthogonal to and meeting both lines), intersection point"""
     np, sm = env.np, env.sm
     case = cfg['case']
     if case == 'parallel':
         P1, Q1, d = two_points(env)
-        off = env.reals('o', 3)
+        off = pt(env, 'o')
         P2 = [P1[i] + off[i] for i in range(3)]
         L1, L2 = sm.Plucker.PointDir(P1, d), sm.Plucker.PointDir(P2, d)
         dist = ck.call(L1.distance, L2)
@@ -132,18 +140,29 @@ def line_pairs(env, cfg, ck):
         ck.true('no-common-perpendicular', ck.call(L1.commonperp, L2) is None)
         return
     P1, u1, P2, u2 = skew_pair(env)
+    if cfg['dirs'] == 'scaled':
+        # direction vectors of different lengths in the property's domain [1e-3, 1e3]
+        l1, l2 = env.real('l1', 1e-3, 1e3, 'logmag'), env.real('l2', 1e-3, 1e3, 'logmag')
+        u1, u2 = [l1 * x for x in u1], [l2 * x for x in u2]
     if case == 'intersecting':
         # second line passes through a point of the first
         lam = env.real('lam')
         X = [P1[i] + lam * u1[i] for i in range(3)]
         P2 = X
     L1, L2 = sm.Plucker.PointDir(P1, u1), sm.Plucker.PointDir(P2, u2)
+    for L in (L1, L2):
+        env.sos(L.v); env.sos(L.w)        # lemma hint: |v|^2, |w|^2 are sums of squares (computed, not assumed)
     n = A.cross3(np, u1, u2)
     sc = lscale(np, P1, P2) ** 2
+    if cfg['dirs'] == 'scaled':
+        sc = sc * (1 + l1 * l1) * (1 + l2 * l2)
     dist = ck.call(L1.distance, L2)
     if case == 'skew':
         gap = A.dot(np, np.array(P2) - np.array(P1), n)
         env.assume(gap * gap >= 1e-6 * A.normsq(np, n))
+        # reciprocal product of the normalised lines: |L1 * L2| |d1| |d2| = |(P2 - P1) . (d1 x d2)|
+        rp = ck.call(lambda: L1 * L2)
+        ck.eq('reciprocal-product', rp * rp * A.normsq(np, u1) * A.normsq(np, u2), gap * gap, scale=sc ** 2)
         # distance between skew lines = |(P2 - P1) . n| / |n|
         ck.eq('distance', dist * dist * A.normsq(np, n), gap * gap, scale=sc)
         ck.true('distance-nonneg', dist >= 0)
@@ -169,12 +188,12 @@ def planes(env, cfg, ck):
     """a plane contains the points it was built from; the line-plane intersection point lies on both, with its line
     parameter; a line built from two planes lies in both"""
     np, sm = env.np, env.sm
-    p0 = env.reals('p', 3)
+    p0 = pt(env, 'p')
     nu, nl = env.unitvec('nu', 3), env.real('nl', 1e-3, 1e3, 'logmag')
     n = [nl * x for x in nu]
     pl = ck.call(sm.Plane.PN, p0, n)
     ck.true('PN-contains-point', ck.call(pl.contains, p0))
-    a, b = env.reals('a', 3), env.reals('b', 3)
+    a, b = pt(env, 'a'), pt(env, 'b')
     q1 = [p0[i] + a[i] for i in range(3)]
     q2 = [p0[i] + b[i] for i in range(3)]
     env.assume(A.normsq(np, A.cross3(np, a, b)) >= 1e-6)
@@ -182,7 +201,7 @@ def planes(env, cfg, ck):
     for k, x in enumerate((p0, q1, q2)):
         ck.true('P3-contains-%d' % k, ck.call(pl3.contains, x, 1e-6))
     # line not parallel to the plane: unit directions with (du.nu)^2 >= 1e-6
-    P = env.reals('P', 3)
+    P = pt(env, 'P')
     du, dl = env.unitvec('du', 3), env.real('dl', 1e-3, 1e3, 'logmag')
     d = [dl * x for x in du]
     c = A.dot(np, du, nu)
@@ -200,7 +219,7 @@ def planes(env, cfg, ck):
     mu, ml = env.unitvec('mu', 3), env.real('ml', 1e-3, 1e3, 'logmag')
     m = [ml * x for x in mu]
     env.assume(A.normsq(np, A.cross3(np, nu, mu)) >= 1e-6)
-    pl2 = sm.Plane.PN(env.reals('r', 3), m)
+    pl2 = sm.Plane.PN(pt(env, 'r'), m)
     LP = ck.call(sm.Plucker.Planes, pl, pl2)
     x = ck.call(LP.point, env.real('mu')).flatten()
     ck.eq('planes-line-in-plane-1', A.dot(np, x, pl.n) + pl.d, 0, scale=sc ** 2)
